@@ -65,7 +65,7 @@ def one_trace(rng, tid, prop):
                 spec = perturb(rng, regs_specs[0]) if rng.random() < 0.7 else regs_specs[0]
         if i == 0:
             regs_specs = [spec]
-        regs.append(rec.new(build_poly(spec)))
+        regs.append(gen.maybe_view(rec, rng, rec.new(build_poly(spec)), 0.2))
     if rng.random() < 0.4:
         regs.append(rec.new(gen.rand_numeric(rng, gen.broadcast_partner(rng, base), kind)))
     for _ in range(rng.randint(6, 12)):
